@@ -22,3 +22,30 @@ Definition outcome (E : env) (cfg : config) (clk : clock) (tb : table) (f : byte
   | Ok (_, r, _) => Ok r
   | Panic s => Panic s
   end.
+
+(* executable form of the collision class: [g] is a data segment of ANOTHER flow
+   whose SYN cookie equals that of [fl] (C08 known finding: the connection table
+   is keyed by the 32-bit cookie only) *)
+Definition collides (cfg : config) (fl : flow) (g : bytes) : bool :=
+  match view_tcp cfg g with
+  | Some v => is_data (tcp_flags (v_l4 v)) &&
+              (flow_cookie cfg (flow_of v) =? flow_cookie cfg fl) &&
+              negb (flow_eqb (flow_of v) fl)
+  | None => false
+  end.
+
+Definition collision_free (cfg : config) (fl : flow) (h : list (clock * bytes)) : bool :=
+  forallb (fun cf => negb (collides cfg fl (snd cf))) h.
+
+(* monitor used by the harness on the implementation: the outcome of the probe
+   frame after the full history and after the restricted history *)
+Definition own_data_of_frame (cfg : config) (f g : bytes) : bool :=
+  match view_tcp cfg f with
+  | Some v => own_data cfg (flow_of v) g
+  | None => false
+  end.
+Definition collides_with_frame (cfg : config) (f g : bytes) : bool :=
+  match view_tcp cfg f with
+  | Some v => collides cfg (flow_of v) g
+  | None => false
+  end.
